@@ -101,6 +101,18 @@ Proof.
 Qed.
 Print Assumptions C06_api_refuted.
 
+(* "never clobbered IMPLICITLY": in the source as it is now (regenerated on every run from the AST of every function of the two
+   packages, harness/translate.py), every parameter called `overwrite` that has a default defaults to False -- writers, converters,
+   table export and CLI commands alike (the translator refuses to run if one of the known entry points loses the parameter) *)
+Definition overwrite_default_ok (e : string * string * string) : bool :=
+  match e with (_, prm, d) => negb (String.eqb prm "overwrite") || String.eqb d "False" || String.eqb d "required" end.
+Theorem C06_source_overwrite_defaults_false :
+  forallb overwrite_default_ok param_defaults = true /\
+  existsb (fun e => match e with (f, prm, d) => String.eqb f "geff/core_io/_base_write.py:write_arrays" && String.eqb prm "overwrite" && String.eqb d "False" end)
+          param_defaults = true.
+Proof. vm_compute. split; reflexivity. Qed.
+Print Assumptions C06_source_overwrite_defaults_false.
+
 (* non-vacuity: write A (property "old", uint16 ids); refuse B without overwrite; overwrite with B (int8 ids, property "new"):
    nothing named "old" is left, the foreign sibling is *)
 Example C06_nonvacuous :
